@@ -428,9 +428,28 @@ func (w *vhWorld) step(op vhOp) (obs vhObs) {
 		dst := w.nodes[op.N%nn]
 		dst.pl.maxPacketSize = op.Max
 		b, _ := hex.DecodeString(op.Bytes)
+		dst.fd.reports = nil
 		if err := dst.pl.handlePacket(b); err != nil {
 			obs.Err = "err"
 		}
+		ex := map[string]any{"reports": vhHexAll(dst.fd.reports), "dec": ""}
+		if len(b) >= 2 && b[1] == supportedVersion {
+			switch messageType(b[0]) {
+			case messageTypeDigest:
+				if h, d, err := decodeDigest(b); err == nil {
+					ex["dec"] = "digest"
+					ex["digest"] = vhFromDigest(d)
+					ex["hid"], ex["haddr"], ex["req"] = vhHex(h.NodeID), vhHex(h.Addr), h.Request
+				}
+			case messageTypeDelta:
+				if h, d, err := decodeDelta(b); err == nil {
+					ex["dec"] = "delta"
+					ex["delta"] = vhFromDelta(d)
+					ex["hid"], ex["haddr"] = vhHex(h.NodeID), vhHex(h.Addr)
+				}
+			}
+		}
+		obs.Extra = ex
 	case "liveness":
 		n := w.nodes[op.N%nn]
 		lv := map[string]float64{}
@@ -486,7 +505,10 @@ func (w *vhWorld) step(op vhOp) (obs vhObs) {
 			}
 		}
 	}
-	w.inflight = append(w.inflight, w.sent...)
+	if op.Op != "inject" {
+		// replies to injected (outside) packets are observed but not fed back into the network
+		w.inflight = append(w.inflight, w.sent...)
+	}
 	w.observe(&obs, acting...)
 	return obs
 }
